@@ -65,12 +65,12 @@ theorem flatMap_length_const {α : Type} (w : Nat) (f : α → Bytes) (l : List 
 request's transaction ID, interval (seconds, as uint32), leechers, seeders, then exactly the peers
 of the requester's family as fixed-size entries (address ‖ big-endian port), in order. -/
 theorem C09_announce (w : Nat) (tx : Bytes) (r : AnnResp) (v6a v6p : Bool) (htx : tx.length = 4) (hw : 0 < w)
-    (hp : ∀ p ∈ (if v6p then r.v6peers else r.v4peers), p.ip.length + 2 = w) :
+    (hp : ∀ p ∈ (wirePeers r v6p), p.ip.length + 2 = w) :
     decodeAnnounce w (writeAnnounce tx r v6a v6p) =
       some { action := if v6a then 4 else 1, tx := tx,
              interval := ((Int.tdiv r.interval 1000000000) % 2^32).toNat, leechers := r.incomplete % 2^32, seeders := r.complete % 2^32,
-             peers := (if v6p then r.v6peers else r.v4peers).map fun p => (p.ip, p.port % 2^16) } := by
-  have hpb : ∀ p ∈ (if v6p then r.v6peers else r.v4peers), (peerBytes p).length = w := by
+             peers := (wirePeers r v6p).map fun p => (p.ip, p.port % 2^16) } := by
+  have hpb : ∀ p ∈ (wirePeers r v6p), (peerBytes p).length = w := by
     intro p hpm; have := hp p hpm; simp [peerBytes]; omega
   have hlen := flatMap_length_const w peerBytes _ hpb
   have hiv : ((Int.tdiv r.interval 1000000000) % 2^32).toNat < 2^32 := by
@@ -79,27 +79,27 @@ theorem C09_announce (w : Nat) (tx : Bytes) (r : AnnResp) (v6a v6p : Bool) (htx 
     omega
   unfold decodeAnnounce writeAnnounce header
   simp only [List.append_assoc, List.length_append, be32_length, htx, hlen]
-  have h1 : ¬ (4 + (4 + (4 + (4 + (4 + (if v6p then r.v6peers else r.v4peers).length * w)))) < 20 ∨
-      (4 + (4 + (4 + (4 + (4 + (if v6p then r.v6peers else r.v4peers).length * w)))) - 20) % w ≠ 0) := by
+  have h1 : ¬ (4 + (4 + (4 + (4 + (4 + (wirePeers r v6p).length * w)))) < 20 ∨
+      (4 + (4 + (4 + (4 + (4 + (wirePeers r v6p).length * w)))) - 20) % w ≠ 0) := by
     intro h
     rcases h with h | h
     · omega
     · apply h
-      have : 4 + (4 + (4 + (4 + (4 + (if v6p then r.v6peers else r.v4peers).length * w)))) - 20 =
-          (if v6p then r.v6peers else r.v4peers).length * w := by omega
+      have : 4 + (4 + (4 + (4 + (4 + (wirePeers r v6p).length * w)))) - 20 =
+          (wirePeers r v6p).length * w := by omega
       rw [this]; exact Nat.mul_mod_left _ _
   rw [if_neg h1]
-  have hq : (4 + (4 + (4 + (4 + (4 + (if v6p then r.v6peers else r.v4peers).length * w)))) - 20) / w =
-      (if v6p then r.v6peers else r.v4peers).length := by
-    have : 4 + (4 + (4 + (4 + (4 + (if v6p then r.v6peers else r.v4peers).length * w)))) - 20 =
-        (if v6p then r.v6peers else r.v4peers).length * w := by omega
+  have hq : (4 + (4 + (4 + (4 + (4 + (wirePeers r v6p).length * w)))) - 20) / w =
+      (wirePeers r v6p).length := by
+    have : 4 + (4 + (4 + (4 + (4 + (wirePeers r v6p).length * w)))) - 20 =
+        (wirePeers r v6p).length * w := by omega
     rw [this]; exact Nat.mul_div_cancel _ hw
   rw [hq]
   simp only [slice_append_ge, slice_append_prefix, be32_length, htx, Nat.le_refl, Nat.sub_self, Nat.reduceSub, Nat.reduceLeDiff,
     Nat.zero_le, toNatBE_be32', Nat.mod_mod]
   have hdrop : List.drop 20 (be32 (if v6a = true then 4 else 1) ++ (tx ++ (be32 ((Int.tdiv r.interval 1000000000) % 2^32).toNat ++
-      (be32 (r.incomplete % 2^32) ++ (be32 (r.complete % 2^32) ++ List.flatMap peerBytes (if v6p then r.v6peers else r.v4peers))))))
-      = List.flatMap peerBytes (if v6p then r.v6peers else r.v4peers) := by
+      (be32 (r.incomplete % 2^32) ++ (be32 (r.complete % 2^32) ++ List.flatMap peerBytes (wirePeers r v6p))))))
+      = List.flatMap peerBytes (wirePeers r v6p) := by
     rw [← List.append_assoc, ← List.append_assoc, ← List.append_assoc, ← List.append_assoc]
     apply List.drop_left'
     simp [htx]
@@ -116,6 +116,70 @@ theorem C09_announce (w : Nat) (tx : Bytes) (r : AnnResp) (v6a v6p : Bool) (htx 
     rw [List.take_append_of_le_length (by omega), List.take_of_length_le (by omega),
       List.drop_append_of_le_length (by omega), List.drop_of_length_le (by omega)]
     simp [toNatBE_be16]
+
+/-- D31: the entries have their family's fixed size whatever form the response value holds the
+addresses in — an IPv4 peer given as 4 bytes or as the 16-byte IPv4-mapped form is a 4-byte address
+on the wire, an IPv6-list peer given as 16 (or 4) bytes a 16-byte one -/
+theorem entryIP_length (v6 : Bool) (ip : Bytes)
+    (h : if v6 then ip.length = 4 ∨ ip.length = 16 else Sanitize.to4 ip ≠ none) :
+    (entryIP v6 ip).length = if v6 then 16 else 4 := by
+  unfold entryIP
+  cases v6
+  · simp only [Bool.false_eq_true, if_false] at h ⊢
+    cases h4 : Sanitize.to4 ip with
+    | none => exact absurd h4 h
+    | some ip4 =>
+      simp only
+      unfold Sanitize.to4 at h4
+      split at h4
+      · rename_i hl; cases h4; exact hl
+      · split at h4
+        · rename_i hm; cases h4; simp [hm.1]
+        · cases h4
+  · simp only [if_true] at h ⊢
+    rcases h with h | h
+    · simp [h]
+    · simp [h]
+
+/-- D32: never more entries than one datagram holds -/
+theorem wirePeers_length (r : AnnResp) (v6 : Bool) : (wirePeers r v6).length ≤ maxEntries v6 := by
+  simp only [wirePeers, List.length_map, List.length_take]
+  exact Nat.min_le_left _ _
+
+/-- … and all of them when they fit -/
+theorem wirePeers_all (r : AnnResp) (v6 : Bool) (h : (if v6 then r.v6peers else r.v4peers).length ≤ maxEntries v6) :
+    wirePeers r v6 = (if v6 then r.v6peers else r.v4peers).map fun p => { p with ip := entryIP v6 p.ip } := by
+  simp only [wirePeers, List.take_of_length_le h]
+
+/-- **The announce response as a client reads it, for every response value** whose addresses have a
+form of their list's family: action, transaction, interval, counts, and the peers of the requester's
+family in order as 6-byte (18-byte) entries — all of them up to what one datagram holds — and the
+datagram never exceeds the largest UDP payload, so it can always be sent (D32). -/
+theorem C09_announce_wire (tx : Bytes) (r : AnnResp) (v6a v6p : Bool) (htx : tx.length = 4)
+    (hp : ∀ p ∈ (if v6p then r.v6peers else r.v4peers), if v6p then p.ip.length = 4 ∨ p.ip.length = 16 else Sanitize.to4 p.ip ≠ none) :
+    decodeAnnounce (if v6p then 18 else 6) (writeAnnounce tx r v6a v6p) =
+      some { action := if v6a then 4 else 1, tx := tx,
+             interval := ((Int.tdiv r.interval 1000000000) % 2^32).toNat, leechers := r.incomplete % 2^32, seeders := r.complete % 2^32,
+             peers := (wirePeers r v6p).map fun p => (p.ip, p.port % 2^16) } ∧
+    (writeAnnounce tx r v6a v6p).length ≤ maxPayload := by
+  have hw : ∀ p ∈ wirePeers r v6p, p.ip.length + 2 = (if v6p then 18 else 6) := by
+    intro p hpm
+    simp only [wirePeers, List.mem_map] at hpm
+    obtain ⟨q, hq, rfl⟩ := hpm
+    have := entryIP_length v6p q.ip (hp q (List.mem_of_mem_take hq))
+    simp only [this]
+    cases v6p <;> rfl
+  refine ⟨C09_announce _ tx r v6a v6p htx (by cases v6p <;> decide) hw, ?_⟩
+  have hpb : ∀ p ∈ wirePeers r v6p, (peerBytes p).length = (if v6p then 18 else 6) := by
+    intro p hpm; have := hw p hpm; simp [peerBytes]; omega
+  have hlen := flatMap_length_const _ peerBytes _ hpb
+  have hn := wirePeers_length r v6p
+  unfold writeAnnounce header
+  simp only [List.length_append, be32_length, htx, hlen]
+  unfold maxEntries maxPayload at *
+  cases v6p
+  · simp only [Bool.false_eq_true, if_false] at *; omega
+  · simp only [if_true] at *; omega
 
 /-- Scrape responses: action 2, the transaction ID, then one (seeders, completed, leechers) triple
 per entry of the response, in order (the response hook produces one entry per requested infohash in
